@@ -134,7 +134,9 @@ AllNullRow(row) == \A i \in 1..Len(row) : IsNullText(row[i])
 MappedGrid(gb, F(_)) == [r \in 1..Len(gb) |-> IF IsHeaderTextRow(gb[r]) THEN gb[r] ELSE [i \in 1..Len(gb[r]) |-> F(gb[r][i])]]
 RowMatches(rowa, rowb, isHeader, pa, pb) ==
   /\ Len(rowa) = Len(rowb)
-  /\ \A i \in 1..Len(rowa) : IF isHeader THEN HeaderPair(rowa[i], rowb[i], pa, pb) ELSE NormCell(rowa[i]) = NormCell(rowb[i])
+  /\ \A i \in 1..Len(rowa) : IF isHeader THEN HeaderPair(rowa[i], rowb[i], pa, pb)
+                              \* rowb is COMPUTED (F applied to the other grid): 'nothing left' there is a null cell; the real cell must be a placeholder, not empty
+                              ELSE NormCell(rowa[i]) = (IF IsNullText(rowb[i]) THEN <<0>> ELSE rowb[i])
 RECURSIVE AlignFrom(_, _, _, _, _, _, _, _)
 AlignFrom(ga, gb, mapped, pa, pb, r, k, acc) ==
   IF r > Len(gb) THEN (IF k = Len(ga) + 1 THEN acc ELSE <<0>>)
